@@ -5,6 +5,6 @@ From Coq Require Import NArith List.
 From ISAL Require Import Base.Words Base.ListUtil Spec.Rolling Spec.RollingPinned Model.RollRun Model.RollInst.
 
 Extraction Language OCaml.
-Extraction "Extract/out/Isal.ml"
+Extraction "Extract/out/Roll.ml"
   c_rh_init c_rh_reset c_rh_run c_run_spec c_H c_boundaries mask_gen
   rh_reset rh_run tbl pinned_table.
